@@ -22,7 +22,9 @@ def main(tier, seed):
     from hv import fam_seq
     base += [it for it in fam_seq.misc(seed, tier) if it.w in (2, 3)]
     from hv import fam_ops
-    base += [it for it in fam_ops.ops_family(seed, tier, [2]) if it.key[1].startswith(('ar_', 'src_'))][::5 if quick else 1]      # unchecked-only rewrites of arithmetic
+    ops = [it for it in fam_ops.ops_family(seed, tier, [2]) if it.key[1].startswith(('ar_', 'src_'))]      # unchecked-only rewrites of arithmetic
+    trips = ('ar_muldiv', 'ar_divmul', 'ar_addsub', 'ar_mulmod')
+    base += [it for it in ops if it.key[1].startswith(trips)] + [it for it in ops if not it.key[1].startswith(trips)][::5 if quick else 1]
     base += fam_seq.eval_order(seed, tier)       # the checked build snapshots operands around its checks: the unchecked one must too
     for w in ([3] if quick else [3, 4, 8]):
         base += families.generated(seed + w, 10 if quick else 60, w=w, inputs=2, family='gen_w%d' % w)
